@@ -227,13 +227,12 @@ def cmd_protocol(ctx):
     violates it for the $in / $in $out forms - the design-level explanation of the pinned known finding.
     Information only: verdicts come from the replayed behaviours."""
     res = {}
-    for cfg in ('CmdProto_fixed.cfg', 'CmdProto_fixedIn.cfg', 'CmdProto_fixedStd.cfg', 'CmdProto_currentStd.cfg'):
-        vlib.tlc_mc(ctx, 'CmdProto', cfg, workers=1, heap='1g', timeout=300)
-        res[cfg[9:-4]] = 'holds'
-    for cfg in ('CmdProto_current.cfg', 'CmdProto_currentIn.cfg'):
-        r = vlib.tlc(ctx, 'CmdProto', cfg, workers=1, heap='1g', timeout=300)
-        res[cfg[9:-4]] = 'EachCallOwnInput violated (as the real code: see known findings)' \
-            if 'EachCallOwnInput' in r['invariant_violations'] else 'DRIFT: design model of the current code no longer shows the defect'
+    r = vlib.tlc_mc(ctx, 'CmdProto', 'CmdProto_fixed.cfg', workers=1, heap='1g', timeout=300)
+    res['patched (argument vector copied per call), forms: $in $out | $in | $out | none'] = 'EachCallOwnInput holds (%d states)' % r['distinct']
+    r = vlib.tlc(ctx, 'CmdProto', 'CmdProto_current.cfg', workers=1, heap='1g', timeout=300)
+    res['as in the code (shared argument vector), forms with $in/$out'] = \
+        'EachCallOwnInput violated (as the real code: see known findings)' if 'EachCallOwnInput' in r['invariant_violations'] \
+        else 'DRIFT: design model of the current code no longer shows the defect'
     return res
 
 
@@ -309,6 +308,10 @@ def run(ctx):
     if bad:
         ctx.coverage['rejections'] = len(bad)
         ctx.coverage['rejections_reproduced'] = reproduced
+    if pinned and not any(i >= ngen for i in bad):
+        # the real code no longer shows the pinned defect while CmdProto's "current" configuration still models it
+        ctx.coverage['cmd_protocol_design']['note'] = ('DRIFT: the pinned $in/$out witnesses are accepted on this tree; '
+                                                       'CmdProto with Shared = TRUE no longer describes the code')
 
     # evidence, measured on this run
     nsteps = 0
